@@ -1848,6 +1848,114 @@ def matcher_call_purity(ctx):
                     break
 
 
+def refcat_feedback_purity(ctx):
+    """a reference table that already carries the bookkeeping columns of an earlier run (`TPx`, `TPy`, `id`:
+    the catalog RETURNED by align_wcs fed back as `refcat`, as multi-pass pipelines do) is caller-owned data
+    like any other: a further align_wcs / fit_wcs in ANOTHER tangent plane leaves it bit-identical"""
+    import warnings
+    from astropy.table import Table
+    from tweakwcs import align_wcs, fit_wcs, XYXYMatch
+    from .. import scenes
+    from . import c01
+    rng = ctx.rng
+    for _ in range(ctx.n(4, 40)):
+        pt = scenes.rand_pointing(rng)
+        cors = []
+        ras, decs = [], []
+        for i in range(2):
+            dec_i = pt[1] + (0.3 * i if pt[1] < 0 else -0.3 * i)
+            c, info = (scenes.mk_jwst(rng, pointing=(pt[0], dec_i)) if rng.random() < 0.4
+                       else scenes.mk_fits(rng, kind=rng.choice(['cd', 'pc']), pointing=(pt[0], dec_i)))
+            nx, ny = scenes.image_size(c)
+            px, py = c01.separated_pixels(rng, nx, ny, rng.choice([6, 12]))
+            unit = float(c.tanp_center_pixel_scale)
+            ra, dec = c.det_to_world(px + 0.3, py - 0.2)
+            c.meta['catalog'] = Table([px, py], names=['x', 'y'])
+            c.meta['name'] = 'im%d' % i
+            cors.append((c, info, px, py, np.asarray(ra, float), np.asarray(dec, float)))
+            ras += list(np.asarray(ra, float))
+            decs += list(np.asarray(dec, float))
+        tbl = Table([np.array(ras), np.array(decs)], names=['RA', 'DEC'])
+        case = {'type': 'refcat-feedback', 'kinds': [t[1]['kind'] for t in cors]}
+        ctx.case(case, nontrivial=True, branch='refcat-feedback')
+        m = XYXYMatch(searchrad=5.0, separation=0.1, tolerance=2.0, use2dhist=False)
+        try:
+            with warnings.catch_warnings():
+                warnings.simplefilter('ignore')
+                out = align_wcs([cors[0][0]], refcat=tbl, fitgeom='shift', match=m, expand_refcat=rng.random() < 0.5)
+                if not ('TPx' in out.colnames and 'id' in out.colnames):
+                    ctx.note('refcat-feedback: the returned catalog carries no TPx / id columns')
+                before = snap_table(out)
+                second = rng.choice(['align_wcs', 'fit_wcs'])
+                c2 = cors[1][0]
+                if second == 'align_wcs':
+                    align_wcs([c2], refcat=out, fitgeom='shift', match=m, expand_refcat=False)
+                else:
+                    fit_wcs(Table([cors[1][4], cors[1][5]], names=['RA', 'DEC']), c2.meta['catalog'], c2.copy())
+                    align_wcs([c2], refcat=out, fitgeom='rscale', match=m, expand_refcat=False)
+                after = snap_table(out)
+        except Exception as e:   # noqa
+            ctx.oracle_fail(case, {'what': 'alignment raised', 'error': repr(e)[:200]})
+            continue
+        df = sorted(k for k in set(before) | set(after) if before.get(k) != after.get(k))
+        if df:
+            ctx.oracle_fail(case, {'what': 'a reference table returned by an earlier align_wcs and passed as refcat '
+                                           'of a further alignment was modified', 'changed': [str(x) for x in df[:6]],
+                                   'second_call': second})
+
+
+def kept_wcs_purity(ctx):
+    """a WCS object the caller took from a corrector after one correction (`w1 = corr.wcs`, e.g. wrapped in a
+    second corrector whose `original_wcs` it becomes) is not rewritten by LATER corrections of the first
+    corrector, and corrections of the second corrector do not reach the first"""
+    from .. import scenes
+    from . import c02
+    rng = ctx.rng
+    # histories before the WCS is taken: S = set_correction, W = re-wrap (every run: all of them for gWCS)
+    patterns = ['', 'S', 'SS', 'SWS', 'SSS', 'SW', 'SSW']
+    todo = [(True, p) for p in patterns] + [(False, rng.choice(patterns)) for _ in range(3)]
+    todo += [(rng.random() < 0.6, rng.choice(patterns)) for _ in range(ctx.n(0, 70))]
+    for jw, pat in todo:
+        c, info = scenes.mk_jwst(rng) if jw else scenes.mk_fits(rng)
+        unit = float(c.tanp_center_pixel_scale) if jw else 1.0
+        case = {'type': 'kept-wcs', 'kind': info['kind'], 'history_before': pat}
+        ctx.case(case, nontrivial=True, branch='kept-wcs:%s:%s' % ('jwst' if jw else info['kind'], pat or '-'))
+        try:
+            for op in pat:
+                if op == 'S':
+                    f = c02.gen_corr(rng, unit, big=False)
+                    c.set_correction(f.M.tolist(), f.t.tolist())
+                else:
+                    c = scenes.rewrap(c)
+            w1 = c.wcs
+            c2 = scenes.rewrap(c)
+            px, py = scenes.probe_pixels(rng, c, 6)
+            sky1 = np.array(w1(px, py) if jw else w1.all_pix2world(px, py, 0))
+            s1 = snap_wcs(w1)
+            o2 = snap_wcs(c2.original_wcs)
+            for _k in range(rng.choice([1, 2])):
+                f = c02.gen_corr(rng, unit, big=False)
+                c.set_correction(f.M.tolist(), f.t.tolist())
+            sky1b = np.array(w1(px, py) if jw else w1.all_pix2world(px, py, 0))
+            # (a FITS corrector updates its own astropy WCS object in place - that object IS `corr.wcs`, the
+            #  documented side effect; a gWCS corrector builds a new gWCS for every correction, so an earlier
+            #  one is the caller's)
+            if jw and (not np.array_equal(sky1, sky1b) or snap_wcs(w1) != s1 or snap_wcs(c2.original_wcs) != o2):
+                ctx.oracle_fail(case, {'what': 'a WCS object taken from the corrector before a further correction (and '
+                                               'the original_wcs of a corrector built on it) was rewritten by that '
+                                               'correction', 'max_sky_change_deg': float(np.max(np.abs(sky1 - sky1b)))})
+                continue
+            # the other direction: correcting the second corrector leaves the first one alone
+            sc = snap_corr_wcs(c)
+            f = c02.gen_corr(rng, unit, big=False)
+            c2.set_correction(f.M.tolist(), f.t.tolist())
+            if snap_corr_wcs(c) != sc:
+                ctx.oracle_fail(case, {'what': 'correcting a corrector built on the WCS of another one changed the '
+                                               'other corrector'})
+        except Exception as e:   # noqa
+            ctx.oracle_fail(case, {'what': 'correction sequence raised', 'error': repr(e)[:200]})
+
+
 def dispatch(ctx, case, lines, pending):
     t = case.get('type', 'sequence')
     if t == 'probe-F21':
@@ -1880,6 +1988,8 @@ def run(ctx):
     for case in cases:
         dispatch(ctx, case, lines, pending)
     matcher_call_purity(ctx)
+    refcat_feedback_purity(ctx)
+    kept_wcs_purity(ctx)
     outs = ctx.driver(lines)
     compare(ctx, outs, pending)
 
